@@ -451,6 +451,26 @@ func c12(p *core.Prog, r *core.Report) {
 					}
 				}
 			})
+			// and nothing else in parseInboundFragment releases the frame: its
+			// callers keep ownership when it fails (they return "release")
+			total := 0
+			for _, g := range core.WithAnon(pf) {
+				total += len(core.CallsIn(g, "FramePool.Release"))
+			}
+			closureRel := 0
+			core.EachInstr(pf, func(i ssa.Instruction) {
+				if st, ok := i.(*ssa.Store); ok {
+					if fl := core.AddrField(st.Addr); fl != nil && fl.Name() == "onDone" {
+						if mc, isMC := st.Val.(*ssa.MakeClosure); isMC {
+							if cf, isF := mc.Fn.(*ssa.Function); isF && cf.Synthetic == "" {
+								closureRel += len(core.CallsIn(cf, "FramePool.Release"))
+							}
+						}
+					}
+				}
+			})
+			r.Check(total-closureRel == 0, "C12-R4", fname(pf), "the parser itself never releases the frame (only the fragment's onDone does)", p.Pos(pf.Pos()), "no FramePool.Release outside the onDone function",
+				fmt.Sprintf("parseInboundFragment releases the frame itself (%d release(s) outside onDone) although its callers still own it on failure: double release", total-closureRel))
 			r.Check(n == 1, "C12-R4", fname(pf), "fragment.onDone releases the parsed frame once", p.Pos(pf.Pos()), "one release in the onDone closure", fmt.Sprintf("%d releases in onDone closures", n))
 		}
 	}
